@@ -124,6 +124,7 @@ def evOfJson (j : Json) : R Ev :=
     | "open" => return .openW (← asStr (← idx j 1))
     | "write" => return .write (← asStr (← idx j 1))
     | "remove" => return .remove (← asStr (← idx j 1))
+    | "mkdir" => return .mkdirSub (← asStr (← idx j 1))
     | t => throw s!"unknown event {t}"
 
 def evToJson : Ev → Json
@@ -134,6 +135,7 @@ def evToJson : Ev → Json
   | .write n => jArr [Json.str "write", Json.str n]
   | .remove n => jArr [Json.str "remove", Json.str n]
   | .mkdir => Json.str "mkdir"
+  | .mkdirSub n => jArr [Json.str "mkdir", Json.str n]
   | .prepared => Json.str "prepared"
   | .annotated => Json.str "annotated"
   | .outputsWritten => Json.str "outputs"
@@ -217,6 +219,14 @@ def handle (j : Json) : R Json := do
     let results := if boolFD j "reload" false then reload written else written
     let r : RunIn := ⟨c, results, strFD j "results_input" "seq.gbk"⟩
     let p := r.toPipe
+    if boolFD j "outer" false then
+      let o := runAntismash r
+      return jObj [("model", prepOutToJson o), ("name", Json.str p.prep.name), ("json", Json.str p.jsonName),
+        ("place", Json.str (reprStr (logPlace p.prep))),
+        ("spec", jObj [("accepts", toJson (specAccepts (afterLogging p.prep))), ("fault", toJson p.results.hasFault),
+                       ("model_ok", toJson (specRun r o)),
+                       ("impl_ok", toJson (onImpl j prepOutOfJson (specRun r)))]),
+        ("scope", toJson (inScope c && (afterLogging p.prep).WF))]
     let o := runTail r
     return jObj [("model", prepOutToJson o), ("name", Json.str p.prep.name), ("json", Json.str p.jsonName),
       ("spec", jObj [("accepts", toJson (specAccepts p.prep)), ("fault", toJson p.results.hasFault),
